@@ -488,14 +488,19 @@ func serverForwardResponses(
 			//	The server SHOULD send a "close" connection option in its final response on that connection.
 			//
 			// It's not a "MUST", so we check both.
+			//
+			// An interim (1xx informational) response does not end the exchange:
+			// keep reading until the final response has been forwarded.
+			if resp.StatusCode < http.StatusOK {
+				continue
+			}
+
 			if req.Close || resp.Close {
 				return errPayloadAfterFinalResponse
 			}
 
-			// If the response is final (not 1xx informational), we are done.
-			if resp.StatusCode >= http.StatusOK {
-				break
-			}
+			// The response is final, we are done.
+			break
 		}
 	}
 }
